@@ -118,7 +118,8 @@ def render_case(case, uid, macroset=None):
     name = {"bare": macro, "qualified": mod + "::" + macro, "crossmod": others[uid % len(others)] + "::" + macro, "unconfigured": "debug", "prefix": macro + "_extra",
             "suffix": "my_" + macro, "othermod": "other::" + macro, "modplus1": "x" + mod + "::" + macro, "modminus1": mod[1:] + "::" + macro, "submod": mod + "::sub::" + macro,
             "shortmod": "l::" + macro, "noliteral": macro, "noargs": macro, "linecomment": macro,
-            "blockcomment": macro, "doccomment": macro, "instring": macro, "instringopen": macro, "rawstring": macro, "starcomment": macro, "bannercomment": macro, "upper": macro.upper(),
+            "blockcomment": macro, "doccomment": macro, "instring": macro, "instringopen": macro, "rawstring": macro, "starcomment": macro,
+            "nestedcomment": macro, "nestedcomment3": macro, "bannercomment": macro, "upper": macro.upper(),
             "crateprefixed": "crate::" + mod + "::" + macro}.get(head)
     if name is None:
         raise ToolError("unknown head " + head)
@@ -129,7 +130,8 @@ def render_case(case, uid, macroset=None):
     def cur():
         return sum(len(x) for x in out)
     # the inter-token layout also applies between the `!` and the opening parenthesis (every second statement)
-    commentish = head in ("linecomment", "blockcomment", "doccomment", "instring", "instringopen", "rawstring", "starcomment", "bannercomment")
+    commentish = head in ("linecomment", "blockcomment", "doccomment", "instring", "instringopen", "rawstring", "starcomment", "bannercomment",
+                          "nestedcomment", "nestedcomment3")
     hg = g if (uid % 4 == 0 and not commentish) else ""          # between `!` and `(`
     hb = g if (uid % 4 == 2 and not commentish) else ""          # between the name and `!`
     out.append(name + hb + "!" + hg + "(")
@@ -161,6 +163,13 @@ def render_case(case, uid, macroset=None):
         stmt_off = None
     elif head == "blockcomment":
         body = "    /* " + call + "; */"
+        stmt_off = None
+    elif head == "nestedcomment":
+        # block comments nest: the statement is still inside the outer comment
+        body = "    /* outer /* inner */ " + call + "; */"
+        stmt_off = None
+    elif head == "nestedcomment3":
+        body = "    /* a /* b /* c */ b again */ " + call + "; /* d */ */"
         stmt_off = None
     elif head == "starcomment":
         body = "    /** " + call + "; **/"
